@@ -270,12 +270,19 @@ class ChainState:
             A copy of the state object with variable attributes that are independent
             copies of the original state object's variables.
         """
+        variables = {name: copy.copy(val) for name, val in self._variables.items()}
+        if read_only:
+            # Also make array variables read-only to prevent in-place updates which
+            # would otherwise modify the array before attribute assignment is blocked
+            for val in variables.values():
+                if hasattr(val, "setflags"):
+                    val.setflags(write=False)
         return type(self)(
             _dependencies=self._dependencies,
             _cache=self._cache.copy(),
             _call_counts=self._call_counts,
             _read_only=read_only,
-            **{name: copy.copy(val) for name, val in self._variables.items()},
+            **variables,
         )
 
     def __str__(self) -> str:
@@ -303,3 +310,8 @@ class ChainState:
         self.__dict__["_cache"] = state["cache"]
         self.__dict__["_call_counts"] = state["call_counts"]
         self.__dict__["_read_only"] = state["read_only"]
+        if state["read_only"]:
+            # Writeable flag of arrays is not preserved by pickling
+            for val in state["variables"].values():
+                if hasattr(val, "setflags"):
+                    val.setflags(write=False)
